@@ -56,7 +56,7 @@ def one(ctx, w, cfg, use_strace):
                 continue
             t = os.path.join(twin.encode(), r)
             os.makedirs(os.path.dirname(t), exist_ok=True)
-            os.link(p, t)
+            os.link(p, t, follow_symlinks=False)      # a symbolic link is twinned as the link itself
     for dirpath, dirnames, filenames in os.walk(d.encode()):
         rel = os.path.relpath(dirpath, d.encode())
         if rel.split(b"/")[0] in (b"patches",):
